@@ -140,7 +140,7 @@ class Uniform(Prior):
         name : string or None, optional
             The name of the parameter.
         """
-        if lower_bound >= upper_bound:
+        if not lower_bound < upper_bound:  # also catches nan bounds
             raise ParameterSpecificationError(
                     "Lower bound {} is not less than upper bound {}".format(
                     lower_bound, upper_bound))
@@ -212,9 +212,13 @@ class Gaussian(Prior):
         """
         self.mu = mu
         self.sd = sd
-        if sd <= 0:
+        if not sd > 0 or np.isinf(sd):
             raise ParameterSpecificationError(
-                    "Specified sd of {} is not greater than 0".format(sd))
+                    "Specified sd of {} is not greater than 0 and "
+                    "finite".format(sd))
+        if not np.isfinite(mu):
+            raise ParameterSpecificationError(
+                    "Specified mean of {} is not finite".format(mu))
         self.name = name
         self._lnprob_normalization = -np.log(self.sd * np.sqrt(2*np.pi))
 
